@@ -21,7 +21,7 @@ type c12Event struct {
 	// silence (-> 4), wrongmsg (-> 5), fin, rst
 	Kind  string `json:"kind"`
 	Code  uint8  `json:"code,omitempty"`
-	Sub   *uint8 `json:"sub,omitempty"` // subcode of a received / handler NOTIFICATION (nil: 1 / 2)
+	Sub   *uint8 `json:"sub,omitempty"`  // subcode of a received / handler NOTIFICATION (nil: 1 / 2)
 	DLen  int    `json:"dlen,omitempty"` // data octets of a received NOTIFICATION
 	State string `json:"state"`
 	Out   bool   `json:"out"`
